@@ -105,30 +105,36 @@ Fixpoint form_bounds (cs : qrow) (xs : list Q) : option (list (Q * Q)) :=
   | [], [] => Some []
   | _, _ => None
   end.
-Definition form_ok (rt : Q) (cs : qrow) (xs : list Q) : bool :=
+(* (sup |form|, inf sum |terms|) of one linear form; None if a needed coefficient is unbounded *)
+Definition form_sizes (cs : qrow) (xs : list Q) : option (Q * Q) :=
   match form_bounds cs xs with
-  | None => false
+  | None => None
   | Some ts =>
       let lo := Qsum (map fst ts) in let hi := Qsum (map snd ts) in
-      let sup_abs := Qmax (Qabs.Qabs lo) (Qabs.Qabs hi) in
-      let inf_terms := Qsum (map (fun t => if Qle_bool (fst t) 0 && Qle_bool 0 (snd t) then 0 else Qmin (Qabs.Qabs (fst t)) (Qabs.Qabs (snd t))) ts) in
-      Qle_bool sup_abs (rt * inf_terms)
+      Some (Qmax (Qabs.Qabs lo) (Qabs.Qabs hi),
+            Qsum (map (fun t => if Qle_bool (fst t) 0 && Qle_bool 0 (snd t) then 0 else Qmin (Qabs.Qabs (fst t)) (Qabs.Qabs (snd t))) ts))
   end.
+(* all forms of one equation: each residual is below rt times (its own sum of absolute terms + the largest such sum of the
+   equation): rounding noise on configurations where all true terms vanish is measured against the equation's scale *)
+Definition forms_ok (rt : Q) (sizes : list (option (Q * Q))) : bool :=
+  let amax := fold_right (fun s acc => match s with Some (_, a) => Qmax a acc | None => acc end) 0 sizes in
+  forallb (fun s => match s with Some (r, a) => Qle_bool r (rt * (a + amax)) | None => false end) sizes.
+Definition form_ok (rt : Q) (cs : qrow) (xs : list Q) : bool := forms_ok rt [form_sizes cs xs].
 
 Definition fluct_form_ok (rt : Q) (u_obs d_obs : list obs) (cs : qrow) : bool :=
-  forallb (fun n =>
+  forms_ok rt (flat_map (fun n =>
     let ws := map (fun o => spec_weight d_obs o n) d_obs in
-    forallb (fun c => form_ok rt cs (map (fun o => fluct0 o n c) u_obs ++ map (fun ow => Qred (snd ow * fluct0 (fst ow) n c)) (combine d_obs ws)))
-            (union_cfgs (u_obs ++ d_obs) n))
-    (sample_names (u_obs ++ d_obs)).
+    map (fun c => form_sizes cs (map (fun o => fluct0 o n c) u_obs ++ map (fun ow => Qred (snd ow * fluct0 (fst ow) n c)) (combine d_obs ws)))
+        (union_cfgs (u_obs ++ d_obs) n))
+    (sample_names (u_obs ++ d_obs))).
 Definition covgrad_of (o : obs) (n : string) (k : nat) : Q := match find_cov o n with Some c => qnth (c_grad c) k | None => 0 end.
 Definition cov_len (ops : list obs) (n : string) : nat :=
   fold_right (fun o acc => match find_cov o n with Some c => Nat.max (List.length (c_grad c)) acc | None => acc end) O ops.
 Definition cov_form_ok (rt : Q) (u_obs d_obs : list obs) (cs : qrow) : bool :=
-  forallb (fun n =>
-    forallb (fun k => form_ok rt cs (map (fun o => covgrad_of o n k) u_obs ++ map (fun o => covgrad_of o n k) d_obs))
-            (seq 0 (cov_len (u_obs ++ d_obs) n)))
-    (all_cov_names (u_obs ++ d_obs)).
+  forms_ok rt (flat_map (fun n =>
+    map (fun k => form_sizes cs (map (fun o => covgrad_of o n k) u_obs ++ map (fun o => covgrad_of o n k) d_obs))
+        (seq 0 (cov_len (u_obs ++ d_obs) n)))
+    (all_cov_names (u_obs ++ d_obs))).
 (* the results live exactly on the union of the data's configurations / covariance inputs *)
 Definition support_ok (u_obs d_obs : list obs) : bool :=
   forallb (fun u => names_eqb (rep_names u) (sample_names d_obs)
@@ -150,7 +156,7 @@ Definition implicit_ok (c : icase) : bool :=
   && forallb (fun i => let row := nth i J' [] in
                        let cs := map i2q (firstn (ic_nv c) row ++ skipn nu row) in
                        fluct_form_ok (ic_rt c) (ic_uobs c) (ic_dobs c) cs && cov_form_ok (ic_rt c) (ic_uobs c) (ic_dobs c) cs)
-             (seq 0 (ic_nv c)).
+             (if Nat.eqb (ic_nv c) nu then seq 0 (List.length (ic_eqs c)) else seq 0 (ic_nv c)).
 
 (* stationarity of an objective F at the solution, scale-free: g_i^2 <= tol^2 H_ii (1 + F + H_ii u_i^2) with H_ii > 0 *)
 Definition stationary_ok (F : expr) (nu : nat) (env : nat -> I.type) (uvals : list Q) (tol : Q) : bool :=
@@ -223,3 +229,25 @@ Definition rcase_root (c : rcase) : bool := equations_hold (rc_ic c) (rc_tol c).
 Definition rcase_implicit (c : rcase) : bool := implicit_ok (rc_ic c).
 Definition rcase_closed (c : rcase) : bool := match rc_closed c with Some g => closed_form_ok (rc_ic c) g (rc_tol c) | None => true end.
 Definition rcase_values (c : rcase) : bool := all2 (fun o v => Qeq_bool (o_value o) v) (ic_uobs (rc_ic c)) (firstn (ic_nv (rc_ic c)) (ic_uvals (rc_ic c))).
+
+(* ------------------------------------------------------------------ systems of identities (C10, C16): any number of equations in the
+   unknowns; an equation holds when its residual is below tol times its first-order scale sum_j |d eq / d u_j| (1 + |u_j|) *)
+Definition eq_holds (c : icase) (tol : Q) (eq : expr) : bool :=
+  let env := ic_env c in
+  let scale := fold_right (fun j acc => I.add prec (I.mul prec (I.abs (evalI env (Dfold eq j))) (I.add prec (zI 1) (I.abs (qI (nth j (ic_uvals c) 0%Q))))) acc)
+                          (zI 0) (seq 0 (ic_nu c)) in
+  certainly_le (I.abs (evalI env eq)) (I.mul prec (qI tol) scale).
+Definition rcase_identities (c : rcase) : bool := forallb (eq_holds (rc_ic c) (rc_tol c)) (ic_eqs (rc_ic c)).
+Definition implicit_culprits (c : icase) (thr : Z) : list (nat * string * Z * list (Q * Q)) :=
+  let nu := ic_nu c in let nd := List.length (ic_dvals c) in
+  let J := jacobian (ic_eqs c) (nu + nd) (ic_env c) in
+  let J' := eliminate (seq (ic_nv c) (nu - ic_nv c)) J in
+  flat_map (fun i => let row := nth i J' [] in
+                let cs := map i2q (firstn (ic_nv c) row ++ skipn nu row) in
+                let u_obs := ic_uobs c in let d_obs := ic_dobs c in
+                flat_map (fun n =>
+                  let ws := map (fun o => spec_weight d_obs o n) d_obs in
+                  flat_map (fun cf => let xs := map (fun o => fluct0 o n cf) u_obs ++ map (fun ow => Qred (snd ow * fluct0 (fst ow) n cf)) (combine d_obs ws) in
+                                      if (thr <=? form_ratio cs xs)%Z then [(i, n, cf, match form_bounds cs xs with Some ts => ts | None => [] end)] else [])
+                      (union_cfgs (u_obs ++ d_obs) n)) (sample_names (u_obs ++ d_obs)))
+      (if Nat.eqb (ic_nv c) nu then seq 0 (List.length (ic_eqs c)) else seq 0 (ic_nv c)).
